@@ -1,8 +1,14 @@
 #!/bin/bash
-# regress_seeds.sh [worktree]: runs every kept seeded change against the quick check(s) that are recorded as catching it
-# (scratch worktree + VERIF_REPO; /repo is not touched). Prints one line per seed.
+# regress_seeds.sh [worktree] [part/of]: runs every kept seeded change against the quick check(s) recorded as catching it
+# (scratch worktree + VERIF_REPO + VERIF_OUT; /repo and /verif/evidence are not touched). Prints one line per seed.
+# e.g. `tools/regress_seeds.sh /tmp/wt/mine 0/2` and `tools/regress_seeds.sh /tmp/wt/mine2 1/2` in parallel.
 WT=${1:-/tmp/wt/mine}
+PART=${2:-0/1}
+K=${PART%/*}; N=${PART#*/}
+i=-1
 for d in /verif/seeded/*/; do
+  i=$((i+1))
+  [ $((i % N)) -eq $K ] || continue
   name=$(basename $d)
   own=${name%%-*}
   ids=$(python3 - "$d" "$own" <<'PY'
@@ -10,7 +16,7 @@ import json,re,sys
 m=json.load(open(sys.argv[1]+'/meta.json'))
 det=m.get('detected_by','')
 ids=[sys.argv[2]]
-for x in re.findall(r'C\d\d', det.split(';')[0] if det.startswith(('C0','C1','C2')) else det):
+for x in re.findall(r'C\d\d', det):
     if x not in ids: ids.append(x)
 if 'moot' in det or 'NOT JUDGED' in det: ids=[]
 print(' '.join(ids))
